@@ -82,7 +82,7 @@ inductive RawErr
   | both (http : Nat) (st : St)               -- implements GRPCStatus() and HTTPStatus() itself
   | http (code : Nat) (inner : RawErr)        -- httperr.StatusError: HTTPStatus(), Unwrap(), Error() = inner.Error()
   | wrapf (pre : Bytes) (inner : RawErr)      -- fmt.Errorf("%s: %w", pre, inner)
-  deriving Repr
+  deriving DecidableEq, Repr
 
 def rpcErrorText (st : St) : Bytes :=
   ascii "rpc error: code = " ++ codeName st.code ++ ascii " desc = " ++ st.msg
@@ -406,6 +406,7 @@ structure Resp where
   origin : Option Origin    -- ghost: the origin of the failure that was rendered (none = success)
   err : Option RawErr       -- ghost: the error value handed to writeError
   bound : Bool              -- ghost: writeError was given a transcoder
+  deriving DecidableEq, Repr
 
 def unimplementedClientStreaming (env : Env) : RawErr :=
   .status { code := cUnimplemented, msg := env.synthMsg, details := [] }
@@ -432,6 +433,65 @@ def natBindErr (env : Env) : RawErr → RawErr
   | .status st => .status { st with msg := env.synthMsg }
   | e => e
 
+/-- The headers `SetHeader` / `SetTrailer` put on the response: the target's metadata through the allow-lists. -/
+def headerMD (sc : Scenario) : MD := filterResponse sc.allowH sc.prefH sc.hdr
+def trailerMD (sc : Scenario) : MD := filterResponse sc.allowT sc.prefT sc.trl
+
+/-- `forwardOutgoingToIncoming` for a server-streaming method: header on the first Recv, `n` messages,
+    then the final status. -/
+def serveStream (sc : Scenario) (env : Env) (t : RespTranscoder) (sse : Bool) : Resp :=
+  let h1 := appendHeaders [] (headerMD sc)
+  if sc.n == 0 then
+    let h2 := appendHeaders h1 (trailerMD sc)          -- SetTrailer before anything was sent: plain headers
+    if sc.inj == .target then failResp .targetStatus sc.gone (some t) sc.err h2
+    else { status := 200, ct := none, nosniff := false, body := .bytes [], hdrs := h2, trls := [], origin := none, err := none, bound := true }
+  else match traverseFieldPath respFields sc.rbp with
+    | none => -- the first Send fails before a byte is written; the pump stops, no SetTrailer
+      failResp .responseEncode false (some t) (responseTranscodingError (respPathErr env)) h1
+    | some sel =>
+      -- n messages were written; a later error is not rendered (writtenStatus), trailers use TrailerPrefix
+      { status := 200, ct := some t.mime, nosniff := false, body := .items sel sc.n sse, hdrs := h1,
+        trls := appendHeaders [] (trailerMD sc), origin := none, err := none, bound := true }
+
+/-- `forwardUnaryResponse` followed by `httpStream.send`. -/
+def serveUnary (sc : Scenario) (env : Env) (t : RespTranscoder) : Resp :=
+  let h1 := appendHeaders [] (headerMD sc)
+  if sc.n == 0 then
+    let h2 := appendHeaders h1 (trailerMD sc)
+    if sc.inj == .target then failResp .targetStatus sc.gone (some t) sc.err h2
+    else failResp .targetStatus false (some t) (eofErr env) h2       -- EOF without a response
+  else if sc.n == 1 && sc.inj == .target then
+    failResp .targetStatus sc.gone (some t) sc.err (appendHeaders h1 (trailerMD sc))
+  else
+    -- n = 1: response then EOF; n ≥ 2: a second message arrived, trailers are not set
+    let h2 := if sc.n == 1 then appendHeaders h1 (trailerMD sc) else h1
+    match traverseFieldPath respFields sc.rbp with
+    | none => failResp .responseEncode false (some t) (responseTranscodingError (respPathErr env)) h2
+    | some sel =>
+      { status := 200, ct := some t.mime, nosniff := false, body := .bytes (env.msgEnc sel), hdrs := h2, trls := [],
+        origin := none, err := none, bound := true }
+
+/-- `ProxyForwarder.Forward` for a non-client-streaming method, as far as it decides what `ServeHTTP` renders. -/
+def serveForward (sc : Scenario) (env : Env) (t : RespTranscoder) (sse : Bool) : Resp :=
+  -- a deadline that expires while the target stays silent
+  if sc.inj == .deadline then failResp .deadline false (some t) (deadlineErr env) []
+  -- forwardUnaryRequest: Incoming.Recv ⇒ reqtc.Transcode (the harness' wrapper returns the injected error first)
+  else if sc.inj == .decode then failResp .requestDecode sc.gone (some t) (requestTranscodingError sc.err) []
+  else match (if sc.bodyEmpty then none else env.natDecode) with
+  | some e => failResp .requestDecode false (some t) (requestTranscodingError e) []
+  | none =>
+    -- Outgoing.Stream
+    if sc.inj == .create then failResp .streamCreate sc.gone (some t) sc.err []
+    else if sc.rpc == .serverStream then serveStream sc env t sse
+    else serveUnary sc env t
+
+/-- `ServeHTTP` after a successful `routeTranscodedRequest`. -/
+def serveBound (sc : Scenario) (env : Env) (b : Bound) : Resp :=
+  let t : RespTranscoder := { mime := b.resp.mime, status := env.stEnc, streams := b.resp.streams }
+  if sc.rpc == .clientStream then failResp .bridge false (some t) (unimplementedClientStreaming env) []
+  else if sc.rpc == .serverStream && !b.resp.streams then failResp .bridge false (some t) (cannotStreamErr env) []
+  else serveForward sc env t b.sse
+
 /-- `TranscodedHTTPBridge.ServeHTTP` on one scenario. -/
 def serve (sc : Scenario) (env : Env) : Resp :=
   -- routeTranscodedRequest: router.RouteHTTP
@@ -440,54 +500,6 @@ def serve (sc : Scenario) (env : Env) : Resp :=
   else if sc.inj == .bind then failResp .bind sc.gone none sc.err []
   else match bind registry env.pm sc.accept (sc.rpc == .clientStream) (sc.rpc == .serverStream) with
   | .error e => failResp .bind false none (natBindErr env e) []
-  | .ok b =>
-    let t : RespTranscoder := { mime := b.resp.mime, status := env.stEnc, streams := b.resp.streams }
-    if sc.rpc == .clientStream then failResp .bridge false (some t) (unimplementedClientStreaming env) []
-    else if sc.rpc == .serverStream && !t.streams then failResp .bridge false (some t) (cannotStreamErr env) []
-    -- Forward: a deadline that expires while the target stays silent
-    else if sc.inj == .deadline then failResp .deadline false (some t) (deadlineErr env) []
-    -- forwardUnaryRequest: Incoming.Recv ⇒ reqtc.Transcode
-    else if sc.inj == .decode then failResp .requestDecode sc.gone (some t) (requestTranscodingError sc.err) []
-    else match (if sc.bodyEmpty then none else env.natDecode) with
-    | some e => failResp .requestDecode false (some t) (requestTranscodingError e) []
-    | none =>
-    -- Outgoing.Stream
-    if sc.inj == .create then failResp .streamCreate sc.gone (some t) sc.err []
-    else
-      let hs := filterResponse sc.allowH sc.prefH sc.hdr
-      let ts := filterResponse sc.allowT sc.prefT sc.trl
-      let targetFails := sc.inj == .target
-      match sc.rpc with
-      | .serverStream =>
-        -- forwardOutgoingToIncoming: header on the first Recv, n messages, then the final status
-        let h1 := appendHeaders [] hs
-        if sc.n == 0 then
-          let h2 := appendHeaders h1 ts          -- SetTrailer before anything was sent: plain headers
-          if targetFails then failResp .targetStatus sc.gone (some t) sc.err h2
-          else { status := 200, ct := none, nosniff := false, body := .bytes [], hdrs := h2, trls := [], origin := none, err := none, bound := true }
-        else match traverseFieldPath respFields sc.rbp with
-          | none => -- the first Send fails before a byte is written; the pump stops, no SetTrailer
-            failResp .responseEncode false (some t) (responseTranscodingError (respPathErr env)) h1
-          | some sel =>
-            -- n messages were written; a later error is not rendered (writtenStatus), trailers use TrailerPrefix
-            { status := 200, ct := some t.mime, nosniff := false, body := .items sel sc.n b.sse, hdrs := h1,
-              trls := appendHeaders [] ts, origin := none, err := none, bound := true }
-      | _ =>
-        -- forwardUnaryResponse
-        let h1 := appendHeaders [] hs
-        if sc.n == 0 then
-          let h2 := appendHeaders h1 ts
-          if targetFails then failResp .targetStatus sc.gone (some t) sc.err h2
-          else failResp .targetStatus false (some t) (eofErr env) h2
-        else if sc.n == 1 && targetFails then
-          failResp .targetStatus sc.gone (some t) sc.err (appendHeaders h1 ts)
-        else
-          -- n = 1: response then EOF; n ≥ 2: a second message arrived, trailers are not set
-          let h2 := if sc.n == 1 then appendHeaders h1 ts else h1
-          match traverseFieldPath respFields sc.rbp with
-          | none => failResp .responseEncode false (some t) (responseTranscodingError (respPathErr env)) h2
-          | some sel =>
-            { status := 200, ct := some t.mime, nosniff := false, body := .bytes (env.msgEnc sel), hdrs := h2, trls := [],
-              origin := none, err := none, bound := true }
+  | .ok b => serveBound sc env b
 
 end GB.C10
